@@ -626,6 +626,8 @@ impl<'a> Work<'a> {
     /// Check a ready build for whether it needs to run, returning true if so.
     /// Prereq: any dependent input is already generated.
     fn check_build_dirty(&mut self, id: BuildId) -> anyhow::Result<bool> {
+        #[cfg(n2_verif)]
+        crate::verif::on_check(&self.graph, id);
         let build = &self.graph.builds[id];
         let phony = build.cmdline.is_none();
         let file_missing = if phony {
